@@ -181,6 +181,10 @@ def check_cmp(ctx: Ctx, e1, e2, sigma: str, origin: str, style_rng=None):
     s1 = R.render(e1, "extra" if style_rng else "min", style_rng)
     s2 = R.render(e2, "extra" if style_rng else "min", style_rng)
     sig = frozenset(sigma)
+    sizes = [call(lambda s=s: len(NFA.from_regex(s, input_symbols=sig).states)) for s in (s1, s2)]
+    if any(r[0] == "ok" and r[1] > 40 for r in sizes):
+        ctx.stat("cmp_skipped_large_nfa")
+        return
     real = (call(lambda: rx.isequal(s1, s2, input_symbols=sig)),
             call(lambda: rx.issubset(s1, s2, input_symbols=sig)),
             call(lambda: rx.issuperset(s1, s2, input_symbols=sig)))
@@ -204,6 +208,9 @@ def check_cmp(ctx: Ctx, e1, e2, sigma: str, origin: str, style_rng=None):
     line = ctx.driver("drv_regex").ask(toks("RX_CMP", R.enc_str(s1), R.enc_str(s2), R.enc_syms(sorted(sigma))))
     t = Toks(line)
     k = t.next()
+    if k == "budget":
+        ctx.stat("cmp_model_budget")     # driver-side determinisation limit: model side skipped
+        return
     if k == "ok":
         mod = (("ok", bool(t.int())), ("ok", bool(t.int())), ("ok", bool(t.int())))
     else:
